@@ -1,0 +1,72 @@
+//go:build verif
+
+package gmars
+
+import (
+	"io"
+	"strings"
+)
+
+// Stage-level taps for the verification harness in /verif. Add-only, compiled
+// only with -tags verif; nothing in the package depends on them.
+
+// VerifToken is the exported view of a token.
+type VerifToken struct {
+	Typ uint8
+	Val string
+}
+
+func verifExport(tokens []token) []VerifToken {
+	out := make([]VerifToken, len(tokens))
+	for i, t := range tokens {
+		out[i] = VerifToken{Typ: uint8(t.typ), Val: t.val}
+	}
+	return out
+}
+
+// VerifLex returns the tokens the lexer produces for the input.
+func VerifLex(r io.Reader) ([]VerifToken, error) {
+	tokens, err := LexInput(r)
+	if err != nil {
+		return nil, err
+	}
+	return verifExport(tokens), nil
+}
+
+// VerifExpandFor runs the scan / FOR-expansion pass loop of CompileWarrior and
+// returns the token stream handed to the parser.
+func VerifExpandFor(r io.Reader) ([]VerifToken, error) {
+	tokens, err := LexInput(r)
+	if err != nil {
+		return nil, err
+	}
+	depth := 0
+	for {
+		symbols, forSeen, err := ScanInput(newBufTokenReader(tokens))
+		if err != nil {
+			return nil, err
+		}
+		if !forSeen {
+			break
+		}
+		expanded, err := ForExpand(newBufTokenReader(tokens), symbols)
+		if err != nil {
+			return nil, err
+		}
+		tokens = expanded
+		depth++
+		if depth > verifMaxForPasses {
+			return nil, io.ErrUnexpectedEOF
+		}
+	}
+	return verifExport(tokens), nil
+}
+
+// VerifEvaluate lexes the text and evaluates it as one expression.
+func VerifEvaluate(text string) (int, error) {
+	tokens, err := LexInput(strings.NewReader(text))
+	if err != nil {
+		return 0, err
+	}
+	return evaluateExpression(tokens[:len(tokens)-1])
+}
